@@ -80,6 +80,10 @@ def run(ck, m):
                      'persisted and restarts with the flag still reading valid asks for an incremental catch-up and never gets the writes '
                      'that only lived in its memory')
     _alias.repeat(ck, m, 'C16', ('C16.b',), 'C05.o', key_filter=lambda k: 'flag-written-at-offset-zero' in k or 'memory-equals-disk' in k or 'map-before-valid' in k)
+    from props import C12 as _C12
+    ck.rule('C05.p', 'a rejoining node asks for everything after its newest RECORD (C12.m, repeated): the last-operation time it reports is decoded '
+                     'from a record of its log or is 0 — the name of a rotated file carries the time of the rename, which is later')
+    _alias.repeat(ck, m, 'C12', ('C12.m',), 'C05.p', runner=_C12.last_op_time_is_a_record_time)
     # the incremental catch-up is built from what the oplog query returns: the query's "last record of a key wins" rules are C12's
     # (d: files oldest first, live file last; h: every record inserted unconditionally); their verdicts are repeated here because a
     # key written and then removed while the node was away is removed on it only if the LAST record labels the key
